@@ -423,6 +423,8 @@ func main() {
 	sh.f("end MageModel.Generated.Shapes\n")
 	if *printShapes {
 		fmt.Print(exp.b.String())
+		tpl, _ := findConst("mage", "mageMainfileTplString")
+		fmt.Printf("def tplString : String := %s\n\n", leanStr(tpl))
 		return
 	}
 	os.MkdirAll(*outDir, 0o755)
